@@ -11,6 +11,7 @@ mod props;
 mod purefns;
 mod report;
 mod rng;
+mod segdump;
 
 use report::Report;
 use std::time::Instant;
